@@ -36,6 +36,11 @@ PROPERTIES = {
             "control flow and value-independent counters are executed with the C++ integer rules, value-dependent parts "
             "become the tables of Generated/Int2Str.lean; raises on anything it has no exact meaning for); its output is "
             "executed by the model driver and compared with the real library on every run",
+            "translate/int2str_literal.py (token matcher that copies the statements of the convert() switch as written, "
+            "counter statements included, when the source has the shape of the pinned code): the Lean interpreter executes "
+            "case selection, fall-through and the `++num_digits == 4` counter on this second reading and the kernel checks "
+            "`*_literal_rows_ok` + theorem C13_switch_as_written, so group placement does not rest on the Python evaluation; "
+            "the translator's report (`literal_switch`) says for which files it was available",
             "interpreter and decidable table checks in Model/Int2Str.lean (C++ integer conversions, integer promotion "
             "to a 32-bit int, uint8_t truncation, checked stores)",
             "specification: core Lean Nat.toDigits 10 / Nat.repr / Int.repr / String.toInt?; groupRight (Model/Int2Str.lean)",
